@@ -70,7 +70,9 @@ def gen_crit(rng, col, allow_quote=True, idx=0):
         return '"%s"' % t, {'k': 'text', 's': t}, {}
     if r < 0.9:
         base = rng.choice(texts) if texts else rng.choice(WORDS)
-        p = rng.choice([base[:1] + '*', '?' + base[1:], '*' + base[-1:], base[:1] + '?' * max(0, len(base) - 1), 'a*e', '*', base + '~*', 'A*', '??'])
+        p = rng.choice([base[:1] + '*', '?' + base[1:], '*' + base[-1:], base[:1] + '?' * max(0, len(base) - 1), 'a*e', '*', base + '~*', 'A*', '??',
+                        # a ? next to a *: the cell equal to the base text is one character too short for the first two
+                        base + '?*', base[:2] + '?*', base[:1] + '*?', '??*'])
         if not re.search(r'(?<![~])[?*]', p):
             p = p + '*'
         return '"%s"' % p, {'k': 'pat', 's': p}, {}
